@@ -142,6 +142,10 @@ Definition rb_elem (g vmin vmax dz : Q) (support : list Q) (x : rrow) : Q :=
   - qsum (map2 Qmult (rb_project g vmin vmax dz (r_r x) (r_d x) support (r_p x)) (r_logp x)).
 (* loss = mean(elementwise * weights); 1-step, n-step (gamma ** n) or their sum when combined_reward *)
 Definition rb_loss (weights : list Q) (elems : list Q) : Q := qmean (map2 Qmult elems weights).
+(* the pinned behaviour (before fixes/C08-rainbow-per-weights-broadcast): the (B,1) weight column delivered by the
+   prioritised buffer broadcasts against the (B,) losses to a (B,B) matrix; torch.mean of that outer product *)
+Definition rb_loss_pinned_broadcast (weights : list Q) (elems : list Q) : Q :=
+  qmean (concat (map (fun w => map (fun e => e * w) elems) weights)).
 
 (* ---------------------------------------------------------------- soft update *)
 Definition lerp (tau e t : Q) : Q := tau * e + (1 - tau) * t.
